@@ -23,7 +23,12 @@ RULE = ("case = a HISTORY of definitions: 0..2 decorated functions followed by 2
         "equal what they were right after that definition; (b) a probe suite (construct, every member called under "
         "the all-truthy and the all-falsy truth table, attribute assignment) yields the same event traces and "
         "outcomes. non-trivial = history with >=3 classes including a sibling or a multiple-inheritance step, or an "
-        "invariant added below a class that has none for that event; distinct = hash(program).")
+        "invariant added below a class that has none for that event; distinct = hash(program). Second family (shared "
+        "function objects): histories of 2..6 steps over 1..2 plain helper functions - call-style decoration "
+        "`g = require|ensure(c)(helper)` repeated on the same helper, stacking on an existing wrapper, and DBC sub-classes "
+        "of up to 3 contracted roots that install the helper as the overriding method; after every step every earlier "
+        "wrapper/class is probed with each contract falsy in turn: same verdict and same evaluated contracts as before, "
+        "and never a contract that was not declared for it.")
 ASSUMPTIONS = ["re-decorating a method of an already created DBC class is not a rule (the library asserts against it)",
                "before/after comparison of the same library (metamorphic); the reference model is not needed here"]
 DECO_KW = dict(n_pre=(0, 2), n_post=(0, 2), n_snap=(0, 1), n_wraps=(0, 1), err_forms=("default", "instance"))
@@ -198,8 +203,182 @@ def strategy(draw):
     return {"program": prog, "ops": [], "truth": {}}
 
 
+# ---- histories over SHARED function objects ----------------------------------------------------------------------
+# The progmodel programs define every function in place. Here the same undecorated function object is wrapped more than
+# once: call-style decoration `g = icontract.require(c)(f)` repeated on one `f`, and one plain helper installed as the
+# overriding method in several classes of different hierarchies. Every earlier wrapper / class must keep its verdicts.
+
+class _Viol(Exception):
+    def __init__(self, cid):
+        super().__init__("violated #%d" % cid)
+        self.cid = cid
+
+
+@st.composite
+def st_shared_history(draw):
+    steps = []
+    n_bare = draw(st.integers(1, 2))
+    for _ in range(draw(st.integers(2, 6))):
+        kind = draw(st.sampled_from(["dec", "dec", "cls", "cls", "redec"]))
+        if kind == "dec":
+            steps.append(["dec", draw(st.integers(0, n_bare - 1)), draw(st.sampled_from(["require", "ensure"]))])
+        elif kind == "redec":
+            steps.append(["redec", draw(st.integers(0, 5)), draw(st.sampled_from(["require", "ensure"]))])
+        else:
+            steps.append(["cls", draw(st.integers(0, 2)), draw(st.integers(0, n_bare - 1)),
+                          draw(st.sampled_from(["pre", "post", "both"]))])
+    return {"shared_history": steps, "n_bare": n_bare}
+
+
+def check_shared_history(ctx, case):
+    import icontract
+
+    T, LOG = {}, []
+    nxt = [0]
+
+    def new_cid():
+        nxt[0] += 1
+        T[nxt[0]] = True
+        return nxt[0]
+
+    def mk_cond(cid, post=False):
+        if post:
+            def cond(result):
+                LOG.append(cid)
+                return T[cid]
+        else:
+            def cond(x):
+                LOG.append(cid)
+                return T[cid]
+        return cond
+
+    def mk_bare(k):
+        def helper(self, x):
+            LOG.append("body%d" % k)
+            return k
+        helper.__name__ = "helper%d" % k
+        return helper
+
+    bares = [mk_bare(k) for k in range(case["n_bare"])]
+    objs = {}   # name -> callable(x) probing the definition
+    own = {}    # name -> set of cids that may be evaluated by that definition
+    roots = {}
+    base = {}
+    wrappers = []
+
+    def probe_all():
+        out = {}
+        for name, fn in objs.items():
+            res = []
+            tables = [None] + sorted(T)
+            for falsy in tables:
+                for c in T:
+                    T[c] = c != falsy
+                del LOG[:]
+                try:
+                    r = fn(1)
+                    o = ("ret", r)
+                except _Viol as e:
+                    o = ("violation", e.cid)
+                except Exception as e:  # noqa
+                    o = ("exc", type(e).__name__, str(e)[:80])
+                res.append((falsy, o, tuple(LOG)))
+            for c in T:
+                T[c] = True
+            out[name] = res
+        return out
+
+    steps = case["shared_history"]
+    feats = set()
+    for si, st_ in enumerate(steps):
+        label = "step %d %r" % (si, st_)
+        if st_[0] == "dec":
+            _, k, role = st_
+            cid = new_cid()
+            deco = (icontract.require(mk_cond(cid), error=_Viol(cid)) if role == "require" else
+                    icontract.ensure(mk_cond(cid, True), error=_Viol(cid)))
+            g = deco(bares[k])
+            name = "g%d" % si
+            wrappers.append(name)
+            objs[name] = (lambda g: lambda x: g(None, x))(g)
+            own[name] = {cid}
+            if sum(1 for s in steps[:si + 1] if s[0] == "dec" and s[1] == k) >= 2:
+                feats.add("same-function-decorated-twice")
+        elif st_[0] == "redec":
+            # stacking on an EXISTING wrapper is decoration of that function itself: it legitimately changes it, and only it
+            if not wrappers:
+                continue
+            name = wrappers[st_[1] % len(wrappers)]
+            cid = new_cid()
+            role = st_[2]
+            deco = (icontract.require(mk_cond(cid), error=_Viol(cid)) if role == "require" else
+                    icontract.ensure(mk_cond(cid, True), error=_Viol(cid)))
+            inner = objs[name]
+            g2 = deco(inner.__closure__[0].cell_contents)
+            objs[name] = (lambda g: lambda x: g(None, x))(g2)
+            own[name] = own[name] | {cid}
+            base.pop(name, None)
+            feats.add("stacked-on-existing-wrapper")
+        else:
+            _, r, k, what = st_
+            if r not in roots:
+                cp, cq = new_cid(), new_cid()
+
+                class Root(icontract.DBC):
+                    @icontract.require(mk_cond(cp), error=_Viol(cp))
+                    @icontract.ensure(mk_cond(cq, True), error=_Viol(cq))
+                    def m(self, x):
+                        LOG.append("root-body")
+                        return -1
+                Root.__name__ = "Root%d" % r
+                roots[r] = (Root, {cp, cq})
+                objs["Root%d" % r] = (lambda K: lambda x: K().m(x))(Root)
+                own["Root%d" % r] = {cp, cq}
+                snap = probe_all()
+                for nme, v in snap.items():
+                    base.setdefault(nme, v)
+            Root, rc = roots[r]
+            ns = {"m": bares[k]}
+            Sub = type(Root)("Sub%d" % si, (Root,), ns)
+            objs["Sub%d" % si] = (lambda K: lambda x: K().m(x))(Sub)
+            own["Sub%d" % si] = set(rc)
+            if sum(1 for s in steps[:si + 1] if s[0] == "cls" and s[2] == k) >= 2:
+                feats.add("helper-installed-in-two-classes")
+            if any(s[0] == "dec" and s[1] == k for s in steps[:si]) or any(s[0] == "cls" and s[2] == k for s in steps[:si]):
+                feats.add("helper-also-wrapped-elsewhere")
+        snap = probe_all()
+        for name, v in snap.items():
+            # absolute: a definition only ever evaluates its own contracts
+            for falsy, o, log in v:
+                foreign = [c for c in log if isinstance(c, int) and c not in own[name]]
+                if foreign:
+                    ctx.fail("shared|foreign-contract-evaluated", case, "%s: %s evaluates contract(s) %r that were never "
+                             "declared for it (its own: %r)\nhistory: %r" % (label, name, foreign, sorted(own[name]), steps))
+                    return feats
+            if name not in base:
+                base[name] = v
+                continue
+            old = {f: (o, log) for f, o, log in base[name]}
+            for falsy, o, log in v:
+                if falsy in old and old[falsy] != (o, log):
+                    ctx.fail("shared|verdicts-changed|%s" % st_[0], case,
+                             "%s changed the earlier definition %s: with contract #%s falsy it gave %r (evaluated %r), now "
+                             "%r (evaluated %r)\nhistory: %r" % (label, name, falsy, old[falsy][0], old[falsy][1], o, log, steps))
+                    return feats
+    return feats
+
+
 def run(ctx, tier, seed, shard, nshards):
     n = N_QUICK if tier == "quick" else N_THOROUGH
+
+    @given(st_shared_history())
+    def test_shared(case):
+        feats = check_shared_history(ctx, case)
+        for f in feats or ():
+            ctx.count("shared:" + f)
+        ctx.case(case, bool(feats), sample=lambda: {"shared_history": case["shared_history"]})
+
+    core.run_hypothesis(test_shared, seed, n * 2)
 
     @given(strategy())
     def test(case):
@@ -209,4 +388,7 @@ def run(ctx, tier, seed, shard, nshards):
 
 
 def replay(ctx, case):
+    if "shared_history" in case:
+        check_shared_history(ctx, case)
+        return
     check_case(ctx, case)
